@@ -237,7 +237,7 @@ def _mk_gs(L):
         ctx.eq("sqrt_s", rs, m, clause="sqrt(m^2) == m for m > 0")
         ks = bw.twoBodyCMmom(rs, ma, mb)
         lg = tf.math.log((rs + 2.0 * ks) / (ma + mb))
-        ctx.eq("hFun", bw.hFun(s, ma, mb), (2.0 / PI) * (ks / rs) * lg, clause="h(s) == (2/pi) (k/sqrt s) ln((sqrt s + 2k)/(m_a + m_b))")
+        ctx.eq("hFun", bw.hFun(s, ma, mb), 2.0 * (ks / rs) * lg / PI, clause="h(s) == (2/pi) (k/sqrt s) ln((sqrt s + 2k)/(m_a + m_b))")
         ctx.eq("dh_dsFun", bw.dh_dsFun(s, ma, mb), bw.hFun(s, ma, mb) * (1.0 / (8.0 * k * k) - 1.0 / (2.0 * s)) + 1.0 / (2.0 * PI * s),
                clause="h'(s) == h(s) (1/(8 k^2) - 1/(2 s)) + 1/(2 pi s)")
         # --- f(s): vanishes at the pole mass, so the denominator at m = m0 is purely imaginary
@@ -250,11 +250,6 @@ def _mk_gs(L):
         G = g0 * (q / q0) ** (2 * L + 1) * (m0 / m) * ratio
         D = 1.0 + bw.dFun(s0, ma, mb) * g0 / m0
         r = bw.GS(m, m0, g0, q, q0, L, d, c_daug2Mass=ma, c_daug3Mass=mb)
-        den = tf.complex(s0 - s + bw.fsFun(s, s0, g0, ma, mb), -m0 * G)
-        prod = r * den
-        ctx.holds("width_positive", G > 0.0, clause="Gamma(m) > 0 for positive Gamma0, q, q0, m, m0: the denominator m0^2 - m^2 + f - i m0 Gamma never vanishes")
-        ctx.eq("inverse.re", tf.math.real(prod), D, skip_def=True, clause="GS(m) * (m0^2 - m^2 + f(m^2) - i m0 Gamma(m)) == 1 + d(m0) Gamma0/m0 (real part; denominators non-zero by width_positive and k0 > 0)")
-        ctx.eq("inverse.im", tf.math.imag(prod), 0.0, skip_def=True, clause="... (imaginary part == 0)")
         r0 = bw.GS(m0, m0, g0, q0, q0, L, d, c_daug2Mass=ma, c_daug3Mass=mb)
         ctx.eq("at_pole.re", tf.math.real(r0), 0.0, clause="Re GS(m0) == 0")
         ctx.eq("at_pole.im", tf.math.imag(r0) * (m0 * g0), D, clause="Im GS(m0) == (1 + d Gamma0/m0) / (m0 Gamma0)  (the documented i/(m0 Gamma0) up to the GS normalisation constant)")
